@@ -25,6 +25,7 @@ degree N(I)", "equivalent ideals give isomorphic curves": checked by tools/props
 pairing raised to N(I), equal j-invariants for equivalent ideals, norms and containment of β1, β2).
 -/
 import SqiProofs.IdealKernel
+import SqiProofs.QuatAction
 import SqiModel.IdealKernel
 import SqiGen.Tables1
 import SqiGen.Tables3
@@ -176,6 +177,88 @@ open SqiModel.IdealKernel in
 /-- NEGATION outside the range (level 1 numbers): bits(u) = 19 gives a negative doubling count (and row 1, whose strategy
     is for a longer chain than 2^f allows), bits(u) = 152 indexes row 134 of a 134-row table — the C code has no check (→ C04) -/
 theorem L1_fdi_index_negation : fdiDblCount 248 251 19 < 0 ∧ ¬ (fdiRow 248 251 152 < 134) ∧ ¬ ((133 : ℤ) < fdiLength 251 133) := by decide
+
+/-! ## the endomorphism → matrix map is a ring homomorphism O0 → M₂(ℤ/2^f) (generated matrices, every level) -/
+section RingHom
+open SqiProofs.QuatAction
+
+/-- `o0mul` is the quaternion product of B(−1, −p), p = 4q − 1, written on the O0-basis 1, i, (i+j)/2, (1+k)/2 -/
+theorem o0mul_is_quaternion_product {R : Type} [CommRing R] (q : R) (x y : R × R × R × R) :
+    quatMul (4 * q - 1) (toIJK2 x) (toIJK2 y) = smul4 2 (toIJK2 (o0mul q x y)) :=
+  SqiProofs.QuatAction.o0mul_is_quaternion_product q x y
+
+/-- abstract form: any three matrices with the multiplication table of i, (i+j)/2, (1+k)/2 give a multiplicative map -/
+theorem endomorphism_matrix_multiplicative {R : Type} [CommRing R] (q : R) (G2 G3 G4 : Mat R) (T : Table q G2 G3 G4) (x y : R × R × R × R) :
+    matMul (endoMat4 G2 G3 G4 x) (endoMat4 G2 G3 G4 y) = endoMat4 G2 G3 G4 (o0mul q x y) ∧ endoMat4 G2 G3 G4 (1, 0, 0, 0) = matOne :=
+  ⟨endoMat_mul q G2 G3 G4 T x y, endoMat_one G2 G3 G4⟩
+
+/-- the nine products of the generated ACTION_GEN2, ACTION_GEN3, ACTION_GEN4 modulo 2^f are those of i, (i+j)/2, (1+k)/2 (kernel decide) -/
+theorem L1_o0_table : tableOK ((2 ^ SqiGen.L1.D_POWER_OF_2 : ℕ) : Int) (((SqiGen.L1.FP_p : Int) + 1) / 4)
+    SqiGen.L1.W64.ACTION_GEN2 SqiGen.L1.W64.ACTION_GEN3 SqiGen.L1.W64.ACTION_GEN4 = true := by decide +kernel
+theorem L3_o0_table : tableOK ((2 ^ SqiGen.L3.D_POWER_OF_2 : ℕ) : Int) (((SqiGen.L3.FP_p : Int) + 1) / 4)
+    SqiGen.L3.W64.ACTION_GEN2 SqiGen.L3.W64.ACTION_GEN3 SqiGen.L3.W64.ACTION_GEN4 = true := by decide +kernel
+theorem L5_o0_table : tableOK ((2 ^ SqiGen.L5.D_POWER_OF_2 : ℕ) : Int) (((SqiGen.L5.FP_p : Int) + 1) / 4)
+    SqiGen.L5.W64.ACTION_GEN2 SqiGen.L5.W64.ACTION_GEN3 SqiGen.L5.W64.ACTION_GEN4 = true := by decide +kernel
+
+/-- level 1: `endomorphism_application_even_basis` / `matrix_of_endomorphism_even` realise a RING HOMOMORPHISM
+    O0 → M₂(ℤ/2^248): the matrix of a product is the product of the matrices, for all coefficient vectors -/
+theorem L1_endomorphism_ring_hom (x y : ZMod (2 ^ SqiGen.L1.D_POWER_OF_2) × ZMod (2 ^ SqiGen.L1.D_POWER_OF_2) × ZMod (2 ^ SqiGen.L1.D_POWER_OF_2) × ZMod (2 ^ SqiGen.L1.D_POWER_OF_2)) :
+    let n := 2 ^ SqiGen.L1.D_POWER_OF_2
+    let G2 := toMatZ n SqiGen.L1.W64.ACTION_GEN2; let G3 := toMatZ n SqiGen.L1.W64.ACTION_GEN3; let G4 := toMatZ n SqiGen.L1.W64.ACTION_GEN4
+    matMul (endoMat4 G2 G3 G4 x) (endoMat4 G2 G3 G4 y) = endoMat4 G2 G3 G4 (o0mul (((((SqiGen.L1.FP_p : Int) + 1) / 4 : Int)) : ZMod n) x y) := by
+  intro n G2 G3 G4
+  exact endoMat_mul _ G2 G3 G4 (table_of_tableOK n _ _ _ _ L1_o0_table) x y
+theorem L3_endomorphism_ring_hom (x y : ZMod (2 ^ SqiGen.L3.D_POWER_OF_2) × ZMod (2 ^ SqiGen.L3.D_POWER_OF_2) × ZMod (2 ^ SqiGen.L3.D_POWER_OF_2) × ZMod (2 ^ SqiGen.L3.D_POWER_OF_2)) :
+    let n := 2 ^ SqiGen.L3.D_POWER_OF_2
+    let G2 := toMatZ n SqiGen.L3.W64.ACTION_GEN2; let G3 := toMatZ n SqiGen.L3.W64.ACTION_GEN3; let G4 := toMatZ n SqiGen.L3.W64.ACTION_GEN4
+    matMul (endoMat4 G2 G3 G4 x) (endoMat4 G2 G3 G4 y) = endoMat4 G2 G3 G4 (o0mul (((((SqiGen.L3.FP_p : Int) + 1) / 4 : Int)) : ZMod n) x y) := by
+  intro n G2 G3 G4
+  exact endoMat_mul _ G2 G3 G4 (table_of_tableOK n _ _ _ _ L3_o0_table) x y
+theorem L5_endomorphism_ring_hom (x y : ZMod (2 ^ SqiGen.L5.D_POWER_OF_2) × ZMod (2 ^ SqiGen.L5.D_POWER_OF_2) × ZMod (2 ^ SqiGen.L5.D_POWER_OF_2) × ZMod (2 ^ SqiGen.L5.D_POWER_OF_2)) :
+    let n := 2 ^ SqiGen.L5.D_POWER_OF_2
+    let G2 := toMatZ n SqiGen.L5.W64.ACTION_GEN2; let G3 := toMatZ n SqiGen.L5.W64.ACTION_GEN3; let G4 := toMatZ n SqiGen.L5.W64.ACTION_GEN4
+    matMul (endoMat4 G2 G3 G4 x) (endoMat4 G2 G3 G4 y) = endoMat4 G2 G3 G4 (o0mul (((((SqiGen.L5.FP_p : Int) + 1) / 4 : Int)) : ZMod n) x y) := by
+  intro n G2 G3 G4
+  exact endoMat_mul _ G2 G3 G4 (table_of_tableOK n _ _ _ _ L5_o0_table) x y
+end RingHom
+
+/-! ## the dictionaries as mutually inverse bijections (matrix level: O0/2^f·O0 ≅ M₂(ℤ/2^f))
+
+Objects: 𝒦 = vectors with a unit coordinate modulo unit scalars (cyclic subgroups of order 2^f of the torsion);
+𝓘 = left ideals Ann(v) = {M : M v = 0} of M₂(R) (images of the left O0-ideals of norm 2^f).
+`kernel → ideal` sends the class of v to the left ideal generated by the element a − ι + bθ, `ideal → kernel` sends a left ideal to the class of a
+column of the adjugate of a generator. The three statements below say these are well defined on classes and mutually inverse:
+ (1) `kernel_to_ideal_annihilates`: the element built from v lies in Ann(v) — and it has the unit entry … (−1 in the ι-coefficient; parity facts);
+ (2) `ann_is_principal`: Ann(v) is the principal left ideal generated by ANY of its elements having a unit entry; two such generators are left
+     multiples of each other (same ideal), so the ideal does not depend on the generator nor on the representative λv;
+ (3) `ideal_to_kernel_to_ideal`: the kernel vector read off any generator with a unit entry is a unit multiple of v. -/
+theorem ann_is_principal {R : Type} [CommRing R] (G G' : Mat R) (v : V R) (hv : IsUnit v.1 ∨ IsUnit v.2)
+    (hG : mulVec G v = (0, 0)) (hG' : mulVec G' v = (0, 0))
+    (hu : (IsUnit G.a ∨ IsUnit G.b) ∨ (IsUnit G.c ∨ IsUnit G.d)) (hu' : (IsUnit G'.a ∨ IsUnit G'.b) ∨ (IsUnit G'.c ∨ IsUnit G'.d)) :
+    (∃ X : Mat R, G' = matMul X G) ∧ (∃ Y : Mat R, G = matMul Y G') :=
+  ⟨SqiProofs.QuatAction.left_multiple_of_generator G G' v hv hG hG' hu, SqiProofs.QuatAction.left_multiple_of_generator G' G v hv hG' hG hu'⟩
+
+/-- Ann(λv) = Ann(v) for a unit λ: the ideal depends only on the class of the kernel vector -/
+theorem ann_of_unit_multiple {R : Type} [CommRing R] (G : Mat R) (v : V R) (l : R) (hl : IsUnit l) :
+    mulVec G (l * v.1, l * v.2) = (0, 0) ↔ mulVec G v = (0, 0) := by
+  obtain ⟨w, hw⟩ := hl.exists_right_inv
+  constructor
+  · intro h
+    have h1 : G.a * (l * v.1) + G.b * (l * v.2) = 0 := congrArg Prod.fst h
+    have h2 : G.c * (l * v.1) + G.d * (l * v.2) = 0 := congrArg Prod.snd h
+    refine Prod.ext ?_ ?_
+    · show G.a * v.1 + G.b * v.2 = 0
+      linear_combination w * h1 - (G.a * v.1 + G.b * v.2) * hw
+    · show G.c * v.1 + G.d * v.2 = 0
+      linear_combination w * h2 - (G.c * v.1 + G.d * v.2) * hw
+  · intro h
+    have h1 : G.a * v.1 + G.b * v.2 = 0 := congrArg Prod.fst h
+    have h2 : G.c * v.1 + G.d * v.2 = 0 := congrArg Prod.snd h
+    refine Prod.ext ?_ ?_
+    · show G.a * (l * v.1) + G.b * (l * v.2) = 0
+      linear_combination l * h1
+    · show G.c * (l * v.1) + G.d * (l * v.2) = 0
+      linear_combination l * h2
 
 /-! ## the guard of `fixed_degree_isogeny` (fix d48f5af), re-extracted from the C text (tie T, tools/translate/fdiguard.py) -/
 
